@@ -413,6 +413,7 @@ def run_func_decl(eng, lang, sym_draws=8):
     w = make_world(eng, lang)
     g = w.g
     place = PLACES[int(eng.fresh_int(0, len(PLACES) - 1, 'place'))]
+    entry = {}
     ARR = w.f.get_array_type().new([w.INT]) if lang != 'kotlin' else None
     if lang == 'kotlin':
         from src.ir import kotlin_types as kt
@@ -450,11 +451,31 @@ def run_func_decl(eng, lang, sym_draws=8):
         # parameter / return types: the pool and the type variables handed out, chosen by the RNG
         return utils.random.choice(pool + w.given)
     g.select_type = select_type
+    # the body generation may declare things on the fly in the function's own scope (a helper function for a call, a
+    # variable): symbolic side effects of the contract stub
+    sk = int(eng.fresh_int(0, 2, 'body_generation_declares'))      # nothing / a helper function / a variable
+    side = dict(func=sk == 1, var=sk == 2, made=[])
+    stub = g.generate_expr
+
+    def generate_expr(expr_type=None, *a, **k):
+        here = tuple(g.namespace)
+        if len(here) > len(entry['namespace']) and not side['made']:
+            if side['func']:
+                d = ast.FunctionDeclaration('hlp', [], w.INT, ast.BottomConstant(w.INT), ast.FunctionDeclaration.FUNCTION)
+                g.context.add_func(here, 'hlp', d)
+                side['made'].append(d)
+            if side['var']:
+                d = ast.VariableDeclaration('hv', ast.BottomConstant(w.INT), is_final=True, var_type=w.INT)
+                g.context.add_var(here, 'hv', d)
+                side['made'].append(d)
+            side['made'].append(None)
+        return stub(expr_type, *a, **k)
+    g.generate_expr = generate_expr
     has_etype = bool(eng.fresh_bool('expected_return_type_given'))
     etype = w.classes['Aa'].get_type() if has_etype else None
     case = dict(unit='func_decl', language=lang, place=place, offered_type_parameters=[str(t) for t in offered],
-                expected_return_type=str(etype))
-    entry = dict(namespace=tuple(g.namespace), depth=g.depth, java_lambda=bool(g._inside_java_lambda))
+                expected_return_type=str(etype), body_generation_declares=[k for k in ('func', 'var') if side[k]])
+    entry.update(namespace=tuple(g.namespace), depth=g.depth, java_lambda=bool(g._inside_java_lambda))
     pf = eng.fresh_bool('parameterized_functions_enabled')
     with installed(eng, max_draws=600, max_sym_draws=sym_draws) as rnd, \
             config(limits__max_depth=6, prob__parameterized_functions=1.0 if bool(pf) else 0.0):
@@ -551,6 +572,12 @@ def run_func_decl(eng, lang, sym_draws=8):
         if lang == 'java':
             out.append(('C05', Ob(U + '|java-nested-function-body-generated-as-lambda',
                                   all(r['java_lambda'] == (place == 'nested') for r in breqs), case)))
+        made = [d for d in side['made'] if d is not None]
+        in_body = fn.body.body if isinstance(fn.body, ast.Block) else []
+        for d in made:
+            eng.event('declared-on-the-fly')
+            out.append(('C05', Ob(U + '|declarations-made-while-generating-the-body-are-part-of-the-body',
+                                  any(x is d for x in in_body), dict(case, declaration=d.name, body=type(fn.body).__name__))))
         final_expr = fn.body.body[-1] if isinstance(fn.body, ast.Block) else fn.body
         out.append(('C01', Ob(U + '|body-ends-with-the-requested-expression', isinstance(final_expr, Hole) and
                               bool(breqs) and final_expr.req is breqs[-1], case)))
@@ -602,12 +629,12 @@ def jobs(aspect, tier, langs, units=('class_members', 'func_decl')):
                 events = ['unit:class_members', 'kind:regular', 'kind:abstract', 'kind:interface', 'super:Pb', 'super:Pg',
                           'overriding-method', 'overriding-parameterized-method', 'overriding-field', 'fresh-method']
             else:
-                prm = dict(sym_draws=5 if tier == 'quick' else 7)
+                prm = dict(sym_draws=4 if tier == 'quick' else 6)
                 bounds = ('place (top level, nested in a function, method of an open / final class), offered type parameters '
                           '([], [F_T], [F_T, F_B : Aa], [F_T, F_U : F_T]), expected return type given or not, '
                           'parameterized-functions switch symbolic; every RNG outcome of the first %d draws; at most 2 '
                           'parameters, 1 side effect' % prm['sym_draws'])
-                events = ['unit:func_decl'] + ['place:' + p for p in PLACES]
+                events = ['unit:func_decl', 'declared-on-the-fly'] + ['place:' + p for p in PLACES]
             out.append(Job('%s-%s' % (unit, lang), harness, dict(lang=lang, unit=unit, aspect=aspect, **prm), split_depth=6,
                            functions=FUNCS[unit], stubs=STUBS, require_events=events, budget_s=2400, crosscheck_every=500,
                            bounds=bounds, outside=OUT))
